@@ -102,6 +102,9 @@ Fixpoint lsn_build (handed : list Z) (steps outs : list value) : option (list ls
       | Some ids =>
           let mk := match st with
                     | VL [VZ 0; VZ _] | VL [VZ 0; VZ _; VZ _] | VL [VZ 0; VZ _; VZ _; VZ _] => Some (LKe thi, LObs thi None (negb (ans =? 0)) ids)
+                    | VL [VZ 2; VZ _; VZ _; VZ kid] =>
+                        (* a request whose cookie names key id kid directly (an id not issued yet) *)
+                        Some (LReq thi kid, LObs thi (Some kid) (negb (ans =? 0)) ids)
                     | VL [VZ 1; VZ _; VZ _; VZ c] =>
                         let kid := nth (Z.to_nat c) handed (-1) in
                         Some (LReq thi kid, LObs thi (Some kid) (negb (ans =? 0)) ids)
